@@ -295,3 +295,54 @@ def shared_accumulator(ctx, fx, files, rule="R-SEQ.shared", only=None):
                           % (P.rsplit("::", 1)[-1], parents[P], hit[0].rsplit("::", 1)[-1], hit[1].rsplit("::", 1)[-1], hit[2]), hit[3], hit[2])
     ctx.instance(rule + ".parallel_fns", n)
     return n
+
+
+# ------------------------------------------------------------------ R-CREATE.truncate
+def create_truncates(ctx, fx, files, rule="R-CREATE.truncate", name_rx=r"^(create\w*|new)$", only=None):
+    """a constructor that creates the backing file of a writer (`create*` / `new`) starts from an empty file: its
+    OpenOptions chain with create(true) + write(true) also has truncate(true) (or create_new / append), or a
+    File::set_len dominates every successful return. Otherwise a shorter new generation written over an older, longer
+    file keeps the old tail, and reopening shows stale bytes and the old length."""
+    nrx = _re.compile(name_rx)
+    n = 0
+    for f in files:
+        for fid in fx.fn_ids(f):
+            base = fid.split("::{")[0].rsplit("::", 1)[-1]
+            if "::tests::" in fid or not nrx.search(base) or (only and not only(fid)):
+                continue
+            for k in range(fx.count(fid)):
+                fn = Fn(fx.raw(fid, k))
+                opts = {}
+                open_block = None
+                for b, c in fn.calls():
+                    if "OpenOptions" in c["f"]:
+                        name = c["f"].rsplit("::", 1)[-1]
+                        arg = None
+                        if len(c["a"]) > 1:
+                            from vlib.mir import op_const as _oc
+                            kk = _oc(c["a"][1])
+                            arg = kk[0] if kk is not None else "?"
+                        opts[name] = arg
+                        if name == "open":
+                            open_block = b
+                if not (opts.get("create") == 1 and opts.get("write") == 1) or open_block is None:
+                    continue
+                n += 1
+                ctx.analysed_fns.add(fid)
+                ok = opts.get("truncate") == 1 or opts.get("create_new") == 1 or opts.get("append") == 1
+                how = "truncate(true)" if ok else None
+                if not ok:
+                    oks, _ = ok_return_blocks(fn)
+                    if not oks:
+                        oks = set(fn.exits())
+                    for b, c in fn.calls():
+                        if c["f"].endswith("File::set_len") and all(fn.dominates(b, o) for o in oks):
+                            ok, how = True, "set_len on every successful path"
+                ctx.obligation(rule, fid, "backing file starts empty", ok, sample={"fn": fid, "options": opts, "by": how})
+                if not ok:
+                    ctx.violation(rule, fid, "file created without truncation",
+                                  "%s opens its backing file with create(true) + write(true) but neither truncate(true) nor an unconditional "
+                                  "set_len: bytes and length of an older, longer file at the same path survive into the new one"
+                                  % fid.rsplit("::", 1)[-1], fn.file, fn.line)
+    ctx.instance(rule + ".sites", n)
+    return n
